@@ -119,3 +119,141 @@ pub fn reset(v: &Value) -> Value {
     let _ = std::fs::remove_dir_all(&dir);
     json!({"failed": failed})
 }
+
+/// K3: fold INITIAL and the checkpoints of one file through the real from_just_working_log
+pub fn fold(v: &Value) -> Value {
+    use git_ai::authorship::attribution_tracker::Attribution;
+    use git_ai::authorship::virtual_attribution::VirtualAttributions;
+    let (dir, repo) = scratch_repo();
+    std::fs::write(dir.join("f"), "l1\nl2\nl3\n").unwrap();
+    let wl = repo.storage.working_log_for_base_commit("head");
+    if let Some(i) = v["initial"].as_array() {
+        let mut files: HashMap<String, Vec<LineAttribution>> = HashMap::new();
+        files.insert(
+            "f".into(),
+            vec![LineAttribution::new(i[0].as_u64().unwrap() as u32, i[1].as_u64().unwrap() as u32, "s0".into(), None)],
+        );
+        wl.write_initial_attributions(files, HashMap::new()).unwrap();
+    }
+    let mut cks = Vec::new();
+    let mut want: Option<(String, u32, u32)> = v["initial"].as_array().map(|i| ("s0".to_string(), i[0].as_u64().unwrap() as u32, i[1].as_u64().unwrap() as u32));
+    for (i, e) in v["entries"].as_array().unwrap().iter().enumerate() {
+        let kind = e["kind"].as_str().unwrap();
+        let who = format!("s{}", i + 1);
+        let (mut at, mut la) = (Vec::new(), Vec::new());
+        let mut ck_kind = CheckpointKind::Human;
+        match kind {
+            "ai" | "ai_chars_only" => {
+                let s = e["lines"][0].as_u64().unwrap() as u32;
+                let t = e["lines"][1].as_u64().unwrap() as u32;
+                ck_kind = CheckpointKind::AiAgent;
+                if kind == "ai" {
+                    la.push(LineAttribution::new(s, t, who.clone(), None));
+                    at.push(Attribution::new(0, 9, who.clone(), i as u128));
+                } else {
+                    at.push(Attribution::new(((s - 1) * 3) as usize, (t * 3) as usize, who.clone(), i as u128));
+                }
+                want = Some((who.clone(), s, t));
+            }
+            "human_all" => {
+                at.push(Attribution::new(0, 9, "human".into(), i as u128));
+                want = None;
+            }
+            _ => {}
+        }
+        let entry = WorkingLogEntry::new("f".into(), format!("b{i}"), at, la);
+        cks.push(Checkpoint::new(ck_kind, "d".into(), "x".into(), vec![entry]));
+    }
+    wl.write_all_checkpoints(&cks).unwrap();
+    let repo2 = git_ai::git::find_repository_in_path(dir.to_str().unwrap()).expect("repo");
+    let va = VirtualAttributions::from_just_working_log(repo2, "head".into(), None);
+    let mut failed: Vec<&str> = Vec::new();
+    let mut got: Vec<(String, u32, u32)> = Vec::new();
+    match va {
+        Err(_) => failed.push("K3-fold-ok"),
+        Ok(va) => {
+            if let Some(las) = va.get_line_attributions("f") {
+                for la in las {
+                    got.push((la.author_id.clone(), la.start_line, la.end_line));
+                }
+            }
+            let lines_of = |who: &str| -> Vec<u32> {
+                let mut v: Vec<u32> = got.iter().filter(|g| g.0 == who).flat_map(|g| g.1..=g.2).collect();
+                v.sort();
+                v.dedup();
+                v
+            };
+            match &want {
+                None => {
+                    if got.iter().any(|g| g.0 != "human") {
+                        failed.push("K3-human-rewrite-clears-earlier-AI-claims");
+                    }
+                }
+                Some((who, s, t)) => {
+                    if got.is_empty() || got.iter().any(|g| &g.0 != who) {
+                        failed.push("K3-newest-entry-decides-the-session");
+                    } else if lines_of(who) != (*s..=*t).collect::<Vec<u32>>() {
+                        failed.push("K3-newest-entry-decides-the-lines");
+                    }
+                }
+            }
+        }
+    }
+    let _ = std::fs::remove_dir_all(&dir);
+    json!({"failed": failed, "got": got})
+}
+
+/// K2: the real post_reset_hook after a successful `git reset --hard [<target>]`
+pub fn reset_hard(v: &Value) -> Value {
+    let (dir, _) = scratch_repo();
+    let git = |args: &[&str]| {
+        let o = std::process::Command::new("git")
+            .args(args)
+            .current_dir(&dir)
+            .env("GIT_AUTHOR_NAME", "v")
+            .env("GIT_AUTHOR_EMAIL", "v@v")
+            .env("GIT_COMMITTER_NAME", "v")
+            .env("GIT_COMMITTER_EMAIL", "v@v")
+            .output()
+            .unwrap();
+        assert!(o.status.success(), "git {:?}: {}", args, String::from_utf8_lossy(&o.stderr));
+        String::from_utf8_lossy(&o.stdout).trim().to_string()
+    };
+    std::fs::write(dir.join("f"), "one\n").unwrap();
+    git(&["add", "-A"]);
+    git(&["commit", "-q", "-m", "c1"]);
+    let first = git(&["rev-parse", "HEAD"]);
+    std::fs::write(dir.join("f"), "one\ntwo\n").unwrap();
+    git(&["commit", "-q", "-am", "c2"]);
+    let head = git(&["rev-parse", "HEAD"]);
+    let mut repo = git_ai::git::find_repository_in_path(dir.to_str().unwrap()).expect("repo");
+    let wl = repo.storage.working_log_for_base_commit(&head);
+    let mut files: HashMap<String, Vec<LineAttribution>> = HashMap::new();
+    files.insert("f".into(), vec![LineAttribution::new(1, 1, "s1".into(), None)]);
+    wl.write_initial_attributions(files, HashMap::new()).unwrap();
+    let entry = WorkingLogEntry::new("f".into(), "b0".into(), vec![], vec![LineAttribution::new(2, 2, "s1".into(), None)]);
+    wl.write_all_checkpoints(&[Checkpoint::new(CheckpointKind::AiAgent, "d".into(), "ai".into(), vec![entry])]).unwrap();
+    let same = v["same"].as_bool().unwrap();
+    let target = if same { head.clone() } else { first.clone() };
+    // the reset itself (git's part)
+    git(&["reset", "-q", "--hard", &target]);
+    repo.pre_command_base_commit = Some(head.clone());
+    repo.pre_reset_target_commit = if v["pre_resolved"].as_bool().unwrap() { Some(target.clone()) } else { None };
+    let mut argv: Vec<String> = v["argv"].as_array().unwrap().iter().map(|a| a.as_str().unwrap().to_string()).collect();
+    // the symbolic run uses placeholder revisions; name the real one
+    for a in argv.iter_mut() {
+        if a == "HEAD~1" || a == "abc123" || a == "HEAD" {
+            *a = target.clone();
+        }
+    }
+    let parsed = git_ai::git::cli_parser::parse_git_cli_args(&argv);
+    let status = std::process::Command::new("true").status().unwrap();
+    git_ai::commands::hooks::reset_hooks::post_reset_hook(&parsed, &mut repo, status);
+    let wl_dir = dir.join(".git").join("ai").join("working_logs").join(&head);
+    let mut failed: Vec<&str> = Vec::new();
+    if wl_dir.exists() {
+        failed.push("K2-hard-reset-discards-pending-attribution");
+    }
+    let _ = std::fs::remove_dir_all(&dir);
+    json!({"failed": failed})
+}
